@@ -75,7 +75,8 @@ class Ctx:
                 if 'capsites' in l.lower():
                     scope |= {'C07', 'C08'}
                 elif 'allocsites' in l.lower():
-                    scope |= {'C01', 'C02', 'C13', 'C10', 'C12'}
+                    m = re.search(r'unsupported \[([C0-9 ]+)\]', l)
+                    scope |= set(m.group(1).split()) if m else {'C01', 'C02', 'C13', 'C10', 'C12', 'C05', 'C03'}
                 else:
                     scope = None
                     break
